@@ -332,7 +332,7 @@ def run(ctx):
     ctx.sample({'term.Gaussian': terms['Gaussian']})
     ad = OmegaAdapter(ctx, terms, 40 if thorough else 12)
     w = Walker(ctx, g, ad, 'replay.OmegaModels')
-    ne = w.cover_edges()
+    ne = w.cover_edges(stutter=True)
     nord = order_independence(ctx, res.records['EDGE'], 12)
     ctx.stage('order_independence', objects=nord)
     # histories on ONE object: Construct; Calculate(g1); Calculate(g2) [; Calculate(g3)] - an evaluation must not depend on earlier ones
